@@ -250,17 +250,21 @@ class JetPool(Pool):
     Terminals may carry options: {"kind": "coef"|"arg0"|"arg1", "grad_of": name}.
     """
 
-    def __init__(self, terminals, mode, ndir=0, seeds=None, nenv=1, seed=0, tiny=True, complex_env=False, opts=None):
+    def __init__(self, terminals, mode, ndir=0, seeds=None, nenv=1, seed=0, tiny=True, complex_env=False, opts=None, nspat=None, varsizes=None):
         super().__init__(terminals, nenv=nenv, seed=seed, tiny=tiny, complex_env=complex_env)
         self.mode = mode
         self.ndir = ndir
+        # directions 0..nspat-1 are spatial, the rest are the flattened components of the variables
+        # ("mixed": spatial derivatives AND differentiation variables in one program)
+        self.nspat = nspat if nspat is not None else (ndir if mode == "spatial" else 0)
+        self.varsizes = tuple(varsizes) if varsizes is not None else ((ndir - self.nspat,) if mode in ("variable", "mixed") else ())
         self.seeds = seeds or {}
         self.opts = opts or {}
         self.nbase = nenv
         rng = random.Random(seed * 104729 + 5)
         self.d1 = []
         self.d2 = []
-        if mode == "spatial":
+        if mode in ("spatial", "mixed"):
             for e in range(nenv):
                 d1, d2 = {}, {}
                 for name, shape in self.terminals:
@@ -268,15 +272,15 @@ class JetPool(Pool):
                     d2[name] = {}
                     for c in comps(shape):
                         for m in range(ndir):
-                            d1[name][c + (m,)] = Cx(Fraction(rng.choice([1, -1]) * rng.randint(1, 9)))
+                            d1[name][c + (m,)] = Cx(Fraction(rng.choice([1, -1]) * rng.randint(1, 9))) if m < self.nspat else Cx(0)
                         for m in range(ndir):
                             for n in range(m, ndir):
-                                v = Cx(Fraction(rng.choice([1, -1]) * rng.randint(1, 9)))
+                                v = Cx(Fraction(rng.choice([1, -1]) * rng.randint(1, 9))) if n < self.nspat else Cx(0)
                                 d2[name][c + (m, n)] = v
                                 d2[name][c + (n, m)] = v
                 self.d1.append(d1)
                 self.d2.append(d2)
-        if mode in ("spatial", "variable"):
+        if mode in ("spatial", "variable", "mixed"):
             self.envdirs = [(E + 1, a, b) for E in range(nenv) for a in range(ndir) for b in range(ndir)]
         else:
             self.envdirs = []
@@ -333,7 +337,7 @@ class JetPool(Pool):
                     ents = []
                     for c in comps(shape):
                         z0 = self.values[E][name][c]
-                        if self.mode == "spatial":
+                        if self.mode in ("spatial", "mixed"):
                             ents.append(f"{_seq(c)} :> {bd_tla(z0, self.d1[E][name][c + (a,)], self.d1[E][name][c + (b,)], self.d2[E][name][c + (a, b)])}")
                         elif name == getattr(self, "seed_term", None):
                             # the differentiation variable is this terminal: component number a is
